@@ -324,7 +324,14 @@ func splitFilter(s, sep string) any {
 
 func uniqFilter(a []any) (result []any) {
 	seenMap := map[any]bool{}
+	seenNil := false
 	seen := func(item any) bool {
+		if item == nil {
+			// reflect.TypeOf(nil) has no Kind
+			wasSeen := seenNil
+			seenNil = true
+			return wasSeen
+		}
 		if k := reflect.TypeOf(item).Kind(); k < reflect.Array || k == reflect.Ptr || k == reflect.UnsafePointer {
 			if seenMap[item] {
 				return true
@@ -349,6 +356,9 @@ func uniqFilter(a []any) (result []any) {
 }
 
 func eqItems(a, b any) bool {
+	if a == nil || b == nil {
+		return a == b
+	}
 	if reflect.TypeOf(a).Comparable() && reflect.TypeOf(b).Comparable() {
 		return a == b
 	}
